@@ -23,5 +23,8 @@ theorem C10_gen_poolCtorCatches : Generated.poolCtorCatches = some ctorCatchesSp
 theorem C10_gen_poolStartRollback : Generated.poolStartRollback = some startRollbackSpec := by decide
 /-- The worker's `except Exception` handler cannot raise on a task without `__name__`. -/
 theorem C10_gen_poolRunHandlerSafe : Generated.poolRunHandlerSafe = some runHandlerSafeSpec := by decide
+/-- `stop()` and `enqueue()` put into the queue with a blocking, timed `put` (the model's `stopPut` / `enqPut` steps): on
+    a bounded queue every listed worker gets its stop marker as soon as there is room for it. -/
+theorem C10_gen_poolQueuePuts : Generated.poolQueuePuts = some queuePutsSpec := by decide
 
 end JRV.Props
